@@ -32,6 +32,7 @@ class FlushRule(FactRule):
     def __init__(self, prog, fn, enders):
         FactRule.__init__(self, prog, fn)
         self.enders = enders
+        self.fin = c16.finishers(prog)
         self.checked = 0
 
     def summarise(self, ctx, call, target, ts):
@@ -74,7 +75,7 @@ class FlushRule(FactRule):
         return ts
 
     def after_call(self, ctx, call, ts, mask):
-        if callee_name(call) == 'index_finish_chunk' and ctx.fn.name in self.enders:
+        if callee_name(call) in self.fin and ctx.fn.name in self.enders:
             ts = (ts | frozenset(['finished'])) - frozenset(['refused'])
         return ts
 
@@ -314,8 +315,20 @@ def run(ctx):
                   'writer emits %s but the reader parses %s' % (ws, rs), wf.file, wf.line, config=config)
         # ---- d
         zw = prog.need_func('zck_write')
-        cr = ConserveRule(prog, zw, 'loc', 'loc_size', 'src_size', 'src')
-        ck.require('loc' in cr.var and 'loc_size' in cr.var, 'zck_write: cursor locals loc / loc_size not found')
+        # the source cursor and the remaining size are the locals handed to comp_write(zck, cursor, remaining)
+        cur_name = rem_name = None
+        for c in calls_of(zw, ('comp_write',)):
+            a2, a3 = strip(c.a[2]), strip(c.a[3])
+            if a2.k == 'var' and a2.dk == 'VarDecl' and a3.k == 'var' and a3.dk == 'VarDecl':
+                # tail call: remaining is a local that is also decreased somewhere
+                dec = any(n.k == 'bin' and n.op == '-=' and strip(n.a[0]).k == 'var' and strip(n.a[0]).decl == a3.decl
+                          for ex in all_exprs(zw) for n in walk(ex))
+                if dec:
+                    cur_name, rem_name = a2.op, a3.op
+        ck.require(cur_name is not None, 'zck_write: source cursor / remaining-size locals of comp_write() not found')
+        total_name = [p_.op for p_ in zw.params if 'size' in p_.op]
+        ck.require(len(zw.params) >= 3, 'zck_write signature changed')
+        cr = ConserveRule(prog, zw, cur_name, rem_name, zw.params[2].op, zw.params[1].op)
         run_rule(prog, zw, cr)
         ck.require(cr.tails >= 2, 'zck_write: success returns not found')
         by = {}
